@@ -143,3 +143,28 @@ def c08_security_update_idempotent(task):
             _res(out, "C08/lemma/%s.update-twice-equals-once:%s" % (cls, k), ("C08",), hyps, And(Not(S2.raised), map_equal(b, a)), rests_on="%s.update/post/* (functional spec)" % cls)
     out["samples"].append(dict(lemma="update(d); update(d) == update(d) on every heap map, all five security classes"))
     return out
+
+
+# ------------------------------------------------------------------------------------------- C06
+def c06_rebalance_lemmas(task):
+    """C06's sentence about the resulting weight, from: the amount clause of StrategyBase.rebalance, the
+    exact-cost clause of SecurityBase.allocate (fractional positions, no costs), I (weight == value / parent
+    value) and Rebalance's base = value * (1 - cash)."""
+    from contracts.core_ops import rebalance_amount_mv, rebalance_amount_fi
+
+    out = dict(results=[], samples=[])
+    V, v, w, cash, N, nv, B = R("V"), R("v_child"), R("w"), R("cash"), R("N"), R("n_child"), R("notional_base")
+    hyps = [V > 0, cash >= 0, cash < 1]
+    wc = v / V  # I: child weight is child value over parent value (StrategyBase.update/weights clause)
+    base = V * (1 - cash)  # algos.Rebalance: base = target.value; base = base * (1 - cash)
+    amt = rebalance_amount_mv(Num.lift(w), Num.lift(wc), Num.lift(base), Num.lift(V)).real()
+    on = "StrategyBase.rebalance/amount:market-value-strategy + SecurityBase.allocate/fractional-exact + StrategyBase.update/weights"
+    # exact allocate (fractional, zero commission and spread): child value grows by exactly the amount; parent value unchanged
+    _res(out, "C06/lemma/targeted-child-reaches-(1-cash)*w", ("C06",), hyps, (v + amt) / V == (1 - cash) * w, rests_on=on)
+    _res(out, "C06/lemma/no-cash-reserve:child-reaches-w", ("C06",), hyps + [cash == 0], (v + amt) / V == w, rests_on=on)
+    # fixed income: notional weight is child notional over strategy notional; base is the notional set by SetNotional
+    hf = [N > 0, B > 0]
+    amtf = rebalance_amount_fi(Num.lift(w), Num.lift(nv / N), Num.lift(B), Num.lift(N)).real()
+    _res(out, "C06/lemma/fixed-income-child-reaches-w*notional-base", ("C06", "C17"), hf, nv + amtf == w * B, rests_on="StrategyBase.rebalance/amount:fixed-income-strategy")
+    out["samples"].append(dict(lemma="(v + amount(w, v/V, V(1-cash), V)) / V == (1-cash) w", rests_on=on))
+    return out
